@@ -17,7 +17,7 @@ for d in sorted(glob.glob('/verif/seeded/C*-*')):
     rows.append((name, summ.replace('|', '/'), ', '.join(det) if det else '**missed**', rule))
 out = []
 n = len(rows); hit = len([r for r in rows if r[2] != '**missed**'])
-out.append(f"**Result: {hit} of {n} kept changes are reported by the check of their property** (quick tier, on `/repo` with the patch applied).\n")
+out.append(f"**Result: {hit} of {n} kept changes are reported by a check — their own property's except where the third column names another** (quick tier, all 19 checks run by `reeval.py` on `/repo` with the patch applied; a patch that no longer applies to the repaired tree keeps its last result).\n")
 out.append("| change | what was changed | reported by | first rule that fires |")
 out.append("|---|---|---|---|")
 for r in rows:
